@@ -282,10 +282,16 @@ func execRelayRules(k *sim.Kernel, pl RelayRulesPlan) {
 		syncModel()
 		now := k.NowMs()
 		// one session per configured target: never two connections to a target at once, connecting ones included
+		// (a connect that a previous incarnation of the publisher left behind is not a session of this one: it is judged at
+		// the end - it must never come to publish next to the current session)
+		curFrom := int64(0)
+		if n := len(rr.pubIvl); n > 0 {
+			curFrom = rr.pubIvl[n-1].from
+		}
 		for _, addr := range pl.Conf.PushAddrs {
 			open := 0
 			for _, p := range rr.Pushes {
-				if p.Addr == addr && p.Stub != nil && !p.Stub.Closed {
+				if p.Addr == addr && p.Stub != nil && !p.Stub.Closed && p.AtMs >= curFrom {
 					open++
 				}
 			}
@@ -361,6 +367,24 @@ func execRelayRules(k *sim.Kernel, pl RelayRulesPlan) {
 				}
 				rr.pub.Publish(rtmpc.Msg{Type: rtmpc.TypeDataAmf0, Payload: []byte{2, 0, 10, 'o', 'n', 'M', 'e', 't', 'a', 'D', 'a', 't', 'a', 5}})
 				k.Settle()
+			}
+		case "pub_restart":
+			// the name is published again (RTMP publishers only): a new incarnation after the previous one has left
+			if pl.PubKind != "rtsp" && rr.pub != nil && rr.pub.LeftStep >= 0 {
+				name := "st0"
+				if pl.PubQuery != "" {
+					name += "?" + pl.PubQuery
+				}
+				rr.pub = actors.NewRtmpClient(k, fmt.Sprintf("pub-again%d", oi), actors.RolePublish, "live", name)
+				rr.pub.Connect(PortRtmp, 10)
+				k.Settle()
+				if !rr.pub.Closed {
+					rr.pubIvl = append(rr.pubIvl, ivl{now, -1})
+					m.hasPub, m2.hasPub = true, true
+				}
+				rr.pub.Publish(rtmpc.Msg{Type: rtmpc.TypeDataAmf0, Payload: []byte{2, 0, 10, 'o', 'n', 'M', 'e', 't', 'a', 'D', 'a', 't', 'a', 5}})
+				k.Settle()
+				k.Probe("c17_republish_during_push")
 			}
 		case "pub_stop":
 			if rr.rtspPub != nil && !rr.rtspLeft {
@@ -666,6 +690,19 @@ func genC17Plan(r *sim.Rng, tier string) RelayRulesPlan {
 		}
 		if r.Bool(0.6) {
 			pl.Ops = append(pl.Ops, RelayRulesOp{Kind: "pub_stop", Reset: r.Bool(0.3)})
+			if r.Bool(0.4) {
+				// the name is published again, at once or a little later (a push attempt may still be connecting)
+				if r.Bool(0.5) {
+					pl.Ops = append(pl.Ops, RelayRulesOp{Kind: "advance", Ms: 100 + r.Intn(2500)})
+				}
+				pl.Ops = append(pl.Ops, RelayRulesOp{Kind: "pub_restart"})
+				for i := 0; i < 1+r.Intn(3); i++ {
+					pl.Ops = append(pl.Ops, RelayRulesOp{Kind: "advance", Ms: 300 + r.Intn(2500)})
+				}
+				if r.Bool(0.5) {
+					pl.Ops = append(pl.Ops, RelayRulesOp{Kind: "pub_stop", Reset: r.Bool(0.3)})
+				}
+			}
 			pl.Ops = append(pl.Ops, RelayRulesOp{Kind: "advance", Ms: 1500})
 		}
 		return pl
